@@ -89,3 +89,10 @@ Theorem chan_drain_after_close :
     firstn (C09_Common.e_aux e) (C09_Buf.b_pushed s) = firstn (C09_Common.e_aux e) (C09_Buf.b_popped s).
 Proof. exact C09_BufProofs.buf_drain_after_close. Qed.
 Print Assumptions chan_drain_after_close.
+
+(* false only because of an expired timeout, unbuffered channel (as it is and repaired) *)
+Theorem chan_false_timeout_only_when_expired_unbuffered :
+  forall fx progs now0 s e, C09_UnbufProofs.ureach fx progs now0 s -> In e (C09_Unbuf.u_log s) ->
+    C09_Common.e_r e = C09_Common.RTimeout -> C09_Common.expired (C09_Common.e_now e) (C09_Common.e_exp e) = true.
+Proof. exact C09_TimeProofs.unbuf_timeout_reason. Qed.
+Print Assumptions chan_false_timeout_only_when_expired_unbuffered.
